@@ -284,6 +284,17 @@ class SymNum(Sym):
         return self._div(o, True)
 
     def _idiv(self, o, r, mod):
+        if isinstance(self, SymReal) or isinstance(o, (SymReal, float, fractions.Fraction)):
+            # float floor division / modulo by a positive constant, in scaled integers: floor((n/D) / (p/q)) = floor(n*q / (D*p))
+            num, den = (o, self) if r else (self, o)
+            cf, rn = _const_frac(den), _rep(num)
+            if cf is None or cf <= 0 or rn is None:
+                raise HarnessError("floor division of reals is modelled only for a positive constant divisor")
+            n, D = rn
+            q = (n * cf.denominator) / (D * cf.numerator)          # z3 Int division floors for a positive divisor
+            if mod:
+                return _from_rep(n * cf.denominator - q * (D * cf.numerator), D * cf.denominator)
+            return _from_rep(q, 1)
         if not isinstance(o, (SymInt, int)) or not isinstance(self, SymInt):
             return NotImplemented
         a, b = lift(self), lift(o)
